@@ -124,3 +124,11 @@ package route
 // released in between (an edit that arrives while the provider writes would otherwise be cleared without having been written)
 //@   assert[call:route.Provider.Flush] held(&t.lock)
 //@   ensures ghostInt(&t.lock, "sections") == old(ghostInt(&t.lock, "sections")) + 1
+
+// ---- the JSON provider (C18): every flush, whatever the table holds (also an EMPTY table), goes through the crash-safe
+// writer: the file is the complete previous or the complete new table at every moment, the new one on success
+//@ func (p *jsonProvider) Flush(full []*Route, saves []*Route, removes []*Route) (err error)
+//@   requires p != nil && disk(p.filePath) == 0 && len(p.filePath) < 1<<30
+//@   modifies all()
+//@   ensures disk(old(p.filePath)) == 0 || disk(old(p.filePath)) == 1
+//@   ensures err == nil ==> disk(old(p.filePath)) == 1
